@@ -214,8 +214,17 @@ def rule_prog(c: Ctx) -> RuleResult:
             continue
         r.add(f"{f.short}|posMax", c.where(f, f.node), f.short, f"def {f.name}(...)", "discharged",
               "posMax holds its entry value at every exit (co-inductively with the other functions of the inline phase)")
+    rule_funcs = {reg.func for ch in ("inline", "inline2") for reg in c.reg.rules[ch]}
     for f, bad in sorted(fails.items(), key=lambda kv: kv[0].qual):
         if f in seen:
+            continue
+        # a private helper of a rule's module that narrows posMax and leaves the restore to its callers is fine as long as every
+        # caller is itself in P (its own exits are checked with the helper's effect on posMax taken into account)
+        callers = c.cg.callers.get(f, [])
+        if f not in rule_funcs and f.name.startswith("_") and callers and all(cs.kind in ("direct", "method") and cs.caller in P for cs in callers):
+            r.add(f"{f.short}|posMax", c.where(f, f.node), f.short, f"def {f.name}(...)", "discharged",
+                  "private helper that leaves posMax changed: every caller restores it before its own exits (each caller is in the "
+                  "posMax-preserving set)")
             continue
         for (node, val) in bad:
             r.add(f"{f.short}|posMax", c.where(f, node) if node is not None else c.where(f, f.node), f.short,
